@@ -156,13 +156,25 @@ def run(ck: Check, repo: Repo) -> None:
     it_src = None
     tgt_name = None
     site = eli.node
-    lf = [n for n in ecfg.live_nodes() if n.kind == "stmt" and isinstance(n.ast, ast.Assign) and isinstance(n.ast.value, ast.ListComp)
-          and "fitness" in ast.unparse(n.ast.value)]
+    def _vector_comp(v: ast.AST):
+        """(comprehension, truncating argument) of `[...]`, `list(<gen>)`, `np.array([...])`, `np.asarray(...)`, `np.fromiter(<gen>, dtype[, count])`."""
+        if isinstance(v, ast.ListComp):
+            return v, None
+        if isinstance(v, ast.Call) and v.args and isinstance(v.args[0], (ast.ListComp, ast.GeneratorExp)) and \
+                (call_name(v) in ("list", "tuple") or last_attr(v) in ("array", "asarray", "fromiter", "tensor", "as_tensor")):
+            cut = get_kw(v, "count", 2) if last_attr(v) == "fromiter" else None
+            if cut is not None and const_value(cut) == -1:
+                cut = None
+            return v.args[0], cut
+        return None, None
+    lf = [(n, _vector_comp(n.ast.value)) for n in ecfg.live_nodes() if n.kind == "stmt" and isinstance(n.ast, ast.Assign) and "fitness" in ast.unparse(n.ast.value)]
+    lf = [(n, c) for n, c in lf if c[0] is not None]
     if len(lf) == 1:
-        comp = lf[0].ast.value
+        comp, cut = lf[0][1]
         g = comp.generators[0]
-        fit_name, elt, it_src, tgt_name, site = dotted(lf[0].ast.targets[0]), comp.elt, g.iter, dotted(g.target), comp
-        plain = not g.ifs and len(comp.generators) == 1
+        fit_name, elt, it_src, tgt_name, site = dotted(lf[0][0].ast.targets[0]), comp.elt, g.iter, dotted(g.target), comp
+        # one entry per member: no filter, one generator, and nothing that stops reading early (np.fromiter(..., count=k) reads only k members)
+        plain = not g.ifs and len(comp.generators) == 1 and cut is None
     else:
         plain = False
         for L_ in [n for n in ecfg.live_nodes() if n.kind == "for" and dotted(n.ast.iter) == "population"]:
@@ -743,6 +755,10 @@ _HEAD = ("        new_population = []\n        if self.elitism:  # keep top agen
 _LOOP = ("        for idx in range(selection_size):\n            max_id += 1\n            actor_parent = population[self._tournament(rank)]\n"
          "            new_individual = actor_parent.clone(max_id, wrap=False)\n            new_population.append(new_individual)\n")
 VARIANTS = [
+    ("fitness-vector-as-numpy-array-ok", _TF, "        last_fitness = [np.mean(indi.fitness[-self.eval_loop :]) for indi in population]", "        last_fitness = np.array([np.mean(indi.fitness[-self.eval_loop :]) for indi in population])", "silent", None),
+    ("fitness-vector-fromiter-whole-ok", _TF, "        last_fitness = [np.mean(indi.fitness[-self.eval_loop :]) for indi in population]", "        last_fitness = np.fromiter((np.mean(indi.fitness[-self.eval_loop :]) for indi in population), dtype=np.float64)", "silent", None),
+    ("fitness-vector-fromiter-count-prefix", _TF, "        last_fitness = [np.mean(indi.fitness[-self.eval_loop :]) for indi in population]", "        last_fitness = np.fromiter((np.mean(indi.fitness[-self.eval_loop :]) for indi in population), dtype=np.float64, count=self.population_size)", "fire", "C05.1"),
+
     ("elite-worst", _TF, "model = population[int(np.argsort(rank)[-1])]", "model = population[int(np.argsort(rank)[0])]", "fire", "C05.1"),
     ("wrapper-clone-drops-index", "agilerl/wrappers/agent.py", "agent_clone = self.agent.clone(index, wrap)", "agent_clone = self.agent.clone(wrap=wrap)", "fire", "C05.4"),
     ("wrapper-clone-index-by-keyword-ok", "agilerl/wrappers/agent.py", "agent_clone = self.agent.clone(index, wrap)", "agent_clone = self.agent.clone(wrap=wrap, index=index)", "silent", None),
